@@ -1,0 +1,77 @@
+//go:build verif
+
+package vgirpc
+
+import "github.com/apache/arrow-go/v18/arrow"
+
+// Verification hooks (build tag "verif") for the sealed-state-token
+// properties. Add-only thin wrappers around unexported internals; nothing
+// here is compiled into normal builds.
+
+// VerifC12SealCursor seals a cursor token with caller-chosen contents through
+// the server's own sealToken. The verification harness uses it to back-date
+// tokens (instead of sleeping) and to stage tokens a client could only hold
+// if some server sharing the key had minted them.
+func (h *HttpServer) VerifC12SealCursor(createdAt int64, callID, method string, state interface{}, auth *AuthContext) ([]byte, error) {
+	data := cursorTokenData{CreatedAt: createdAt, CallID: callID, Method: method, State: state}
+	return h.sealToken(cursorTokenVersion, &data, stateTokenAad(auth))
+}
+
+// VerifC12SealCall seals a call token with caller-chosen contents. Unlike
+// packCallToken it does not touch the call-state cache.
+func (h *HttpServer) VerifC12SealCall(createdAt int64, callID string, schemaIPC []byte, streamID string, auth *AuthContext) ([]byte, error) {
+	data := callTokenData{CreatedAt: createdAt, CallID: callID, SchemaIPC: schemaIPC, StreamID: streamID}
+	return h.sealToken(callTokenVersion, &data, callTokenAad(auth))
+}
+
+// VerifC12PeekCursor opens a cursor token for auth without the age check and
+// returns its contents.
+func (h *HttpServer) VerifC12PeekCursor(token []byte, auth *AuthContext) (createdAt int64, callID, method string, state interface{}, err error) {
+	var data cursorTokenData
+	if err = h.openToken(cursorTokenVersion, token, stateTokenAad(auth), &data); err != nil {
+		return 0, "", "", nil, err
+	}
+	return data.CreatedAt, data.CallID, data.Method, data.State, nil
+}
+
+// VerifC12PeekCall opens a call token for auth without the age check and
+// returns its contents.
+func (h *HttpServer) VerifC12PeekCall(token []byte, auth *AuthContext) (createdAt int64, callID string, schemaIPC []byte, streamID string, err error) {
+	var data callTokenData
+	if err = h.openToken(callTokenVersion, token, callTokenAad(auth), &data); err != nil {
+		return 0, "", nil, "", err
+	}
+	return data.CreatedAt, data.CallID, data.SchemaIPC, data.StreamID, nil
+}
+
+// VerifC12Aad returns the AEAD associated data for a token kind ("cursor" or
+// "call") and a caller.
+func VerifC12Aad(kind string, auth *AuthContext) []byte {
+	if kind == "call" {
+		return callTokenAad(auth)
+	}
+	return stateTokenAad(auth)
+}
+
+// VerifC12CacheIdentity returns the identity half of the call-state cache key.
+func VerifC12CacheIdentity(auth *AuthContext) string { return callStateIdentity(auth) }
+
+// VerifC12NormalizeKey runs normalizeTokenKey.
+func VerifC12NormalizeKey(key []byte) []byte {
+	out := normalizeTokenKey(key)
+	return append([]byte(nil), out...)
+}
+
+// VerifC12Consts returns the token envelope constants.
+func VerifC12Consts() map[string]int {
+	return map[string]int{
+		"cursor_version": cursorTokenVersion,
+		"call_version":   callTokenVersion,
+		"nonce_len":      stateTokenNonceLen,
+		"tag_len":        stateTokenTagLen,
+		"min_len":        stateTokenMinLen,
+	}
+}
+
+// VerifC12SerializeSchema renders a schema the way packCallToken stores it.
+func VerifC12SerializeSchema(s *arrow.Schema) []byte { return serializeSchema(s) }
